@@ -429,6 +429,30 @@ func writeFFT(repoRoot, srcRoot, verifRoot string, check bool) int {
 	return stale
 }
 
+// ---------------- vector readers (asynchronous) and the work splitter of the field packages ----------------
+
+func writeAsync(repoRoot, srcRoot, verifRoot string, pinned map[string]string, check bool) int {
+	stale := 0
+	for _, t := range [][3]string{{"async.go.tmpl", "zz_verif_contracts_async.go", "\nfunc (vector *Vector) AsyncReadFrom(r io.Reader) (int64, error, chan error) {"},
+		{"execute.go.tmpl", "zz_verif_contracts_execute.go", "\nfunc execute(nbIterations int, work func(int, int), maxCpus ...int) {"}} {
+		b, err := os.ReadFile(filepath.Join(verifRoot, "contracts", "field", t[0]))
+		if err != nil {
+			continue
+		}
+		for _, p := range fieldPkgs(pinned) {
+			rel := strings.TrimPrefix(p, "./")
+			src, err := os.ReadFile(filepath.Join(srcRoot, rel, "vector.go"))
+			if err != nil || !strings.Contains(string(src), t[2]) {
+				continue
+			}
+			pkg := ""
+			fmt.Sscanf(after(string(src), "\npackage "), "%s", &pkg)
+			stale += installText(filepath.Join(repoRoot, rel, t[1]), strings.ReplaceAll(string(b), "PKG", pkg), check)
+		}
+	}
+	return stale
+}
+
 // ---------------- exponentiation ----------------
 
 func writeExp(repoRoot, srcRoot, verifRoot string, pinned map[string]string, check bool) int {
